@@ -109,6 +109,10 @@ func execRules(c *Ctx, full bool) {
 		c.Rule("R09i+", "cross-reference (thorough): the same error-discipline rule over both modules", 100)
 		errReturnLint(c, "R09i+", func(fi *FuncInfo) bool { return fi.Pkg.PkgPath != pMigrate })
 	}
+	c.Rule("R09n", ruleTextDirRestored, 1)
+	checkDirRestored(c, "R09n")
+	c.Rule("R09o", ruleTextLastCheckpoint, 1)
+	checkLastCheckpoint(c, "R09o")
 	c.Rule("R09m", "Execute never makes progress under a stale Total: every statement execution (ExecContext, directly or through a helper) is preceded on every path by a store of Revision.Total from the current statement count (constructor literal or assignment), so each later write of the revision — per statement, deferred, or none because the process died — leaves Applied < Total while statements remain. (The refresh must not precede the history check: R12c.)", 1)
 	c.Rule("R09j", "Execute: completion agrees with Pending's completeness test (Applied == Total): every path to the point where the file is marked complete (PartialHashes cleared) has stored Revision.Total from the current statement count, also when resuming a revision whose file tail was edited", 1)
 	c.Rule("R09g", "writeRevision reaches RevisionReadWriter.WriteRevision on every path and wraps its error in WriteRevisionError", 2)
